@@ -1,7 +1,7 @@
 (* Props/C01.v — Formula operators keep their Excel meaning.  Statements only. *)
 Require Import X2P.Base.Prelude X2P.Base.F64 X2P.Base.PyCmp X2P.Base.PyNum X2P.Base.PyArith.
 Require Import X2P.Model.Peg X2P.Model.Emit X2P.Gen.Grammar X2P.Spec.Formula X2P.Spec.Shape X2P.Corr.C01.
-Require Import X2P.Proofs.FormulaSweep X2P.Proofs.FormulaSweep7 X2P.Proofs.FormulaProofs X2P.Proofs.FormulaRefute X2P.Proofs.FormulaCore X2P.Proofs.FormulaGrammar X2P.Proofs.FormulaAccepts.
+Require Import X2P.Proofs.FormulaSweep X2P.Proofs.FormulaSweep7 X2P.Proofs.FormulaProofs X2P.Proofs.FormulaRefute X2P.Proofs.FormulaCore X2P.Proofs.FormulaGrammar X2P.Proofs.FormulaAccepts X2P.Proofs.FormulaSpecGrammar.
 Open Scope string_scope.
 
 (* the precedence / associativity table, kernel-exhaustive: for EVERY sequence of 1..7 tokens over {atom + - * / & < % ( )} that Excel
@@ -61,6 +61,19 @@ Proof. exact core_grouping. Qed.
 Theorem C01_grammars_agree_le7 : forall ids,
   (1 <= List.length ids <= 7)%nat -> Forall (fun a => In a CORE_ALPHA) ids -> grammars_agree ids = true.
 Proof. exact grammars_agree_all. Qed.
+(* ... and WITHOUT a bound: on every string of core tokens (atoms, + - * /, brackets) — any length, any nesting — G and the Excel-side
+   reader x_cmp of Spec/Formula.v build the same tree (rel: same shape, every sign and operator in place, each atom read from the same
+   token), for every fuel the reader may be given beyond 5 * (G's fuel) + 1.  Simulation by induction on G's fuel
+   (Proofs/FormulaSpecGrammar.v). *)
+Theorem C01_grammar_is_spec_reader : forall f l g, ctoks l -> g_sum f (map view_tok l) = Some (g, []) ->
+  exists x, rel g x /\ forall F, (5 * f + 1 <= F)%nat -> x_cmp F l = Some (x, []).
+Proof. exact grammar_is_spec_reader. Qed.
+(* THE GROUPING THEOREM against the specification itself (unbounded): for every core tree the translator accepts, Python's reading of
+   the emitted text (regroup) and Excel's reading of the formula (xparse, at the fuel the specification gives it) are the same tree *)
+Theorem C01_core_excel_reading : forall fuel fc t c pe,
+  core fc t = true -> emit fuel t = EOk c -> regroup c = Some pe ->
+  exists g x, py_of_gt g = pe /\ rel g x /\ xparse (yield t) = Some x.
+Proof. exact core_excel_reading. Qed.
 
 (* a blank operand counts as 0: it behaves exactly as the integer 0 under + - * / and the unary signs, on either side, against EVERY value *)
 Theorem C01_blank_is_zero : forall o y,
